@@ -26,6 +26,18 @@ func main() {
 			fmt.Println(id)
 		}
 		return
+	case "--digest":
+		p := explore.Lookup(args[1])
+		if p == nil || p.Digest == nil {
+			os.Exit(2)
+		}
+		if p.Setup != nil {
+			p.Setup("quick")
+		}
+		for _, l := range p.Digest() {
+			fmt.Println(l)
+		}
+		return
 	case "--replay":
 		os.Exit(explore.Replay(args[1]))
 	case "--count":
